@@ -86,7 +86,9 @@ class History:
         if op == 'open_pr':
             w.open_pr(step['src'], step['dst'], step.get('author', AUTHOR),
                       base_back=step.get('base_back', 0),
-                      touch_shared=step.get('shared'))
+                      touch_shared=step.get('shared'),
+                      base_branch=step.get('base_branch'),
+                      same_as=step.get('same_as'))
         elif op == 'push_src':
             w.push_src(step['pr'], step['kind'])
         elif op == 'approve':
@@ -305,8 +307,12 @@ class History:
                 return []
             inj = self.injector
             inj.reset_plan()
-            inj.before_push[step['push']] = \
-                lambda: self.third_party(step['action'])
+            if 'cmd' in step:
+                inj.before_cmd[step['cmd']] = \
+                    lambda: self.third_party(step['action'])
+            else:
+                inj.before_push[step['push']] = \
+                    lambda: self.third_party(step['action'])
             self.placement = step
             res = self.run(job, step)
             return [res]
@@ -673,6 +679,15 @@ def draw_step(data, hist, weights=None, max_prs=4):
                 'base_back': pick((0, 0, 0, 1), 'base_back')}
         if data.draw(st.integers(0, 7), label='shared') == 0:
             step['shared'] = data.draw(st.integers(0, 3), label='line')
+        k = data.draw(st.integers(0, 9), label='origin')
+        chain_ = [n_ for n_ in w.chain if n_ in heads]
+        if k == 0 and dst in chain_ and chain_.index(dst) > 0:
+            # work started on an older branch, targeted at a newer one
+            step['base_branch'] = chain_[data.draw(st.integers(
+                0, chain_.index(dst) - 1), label='older')]
+        elif k == 1 and user_prs:
+            # the same commits proposed to another destination (backport)
+            step['same_as'] = pick(user_prs, 'same_as')
         return step
     if op == 'push_src':
         return {'op': op, 'pr': pick(user_prs, 'pr'),
